@@ -65,7 +65,7 @@ func (v valSpec) String() string {
 }
 
 type action struct {
-	Kind  string // sstore | call | create
+	Kind  string // sstore | sstore-cv (value = CALLVALUE: a later zero-value call clears the slot) | call | create
 	Slot  uint64
 	Val   uint64
 	To    addrSpec
@@ -103,6 +103,8 @@ func (p *prog) code() []byte {
 		switch x.Kind {
 		case "sstore":
 			a.SStore(x.Slot, x.Val)
+		case "sstore-cv":
+			a.Op(evmasm.CALLVALUE).PushU(x.Slot).Op(evmasm.SSTORE)
 		case "call":
 			a.CallDyn(x.Gas, x.To.code(), x.Value.code())
 		case "create":
@@ -132,6 +134,8 @@ func (p *prog) String() string {
 		switch x.Kind {
 		case "sstore":
 			s = append(s, fmt.Sprintf("sstore(%d,%d)", x.Slot, x.Val))
+		case "sstore-cv":
+			s = append(s, fmt.Sprintf("sstore(%d,CALLVALUE)", x.Slot))
 		case "call":
 			s = append(s, fmt.Sprintf("call(to=%s,value=%s,gas=%d)", x.To, x.Value, x.Gas))
 		case "create":
@@ -231,6 +235,8 @@ func (g *progGen) value() valSpec {
 
 func (g *progGen) action() action {
 	switch k := g.rng.Intn(100); {
+	case k < 10:
+		return action{Kind: "sstore-cv", Slot: uint64(g.rng.Intn(3))}
 	case k < 30:
 		v := uint64(0)
 		if g.rng.Chance(55) {
